@@ -14,8 +14,9 @@ MOD = __name__
 
 RULE = ("Hypothesis RuleBasedStateMachine (rules = addfilter, updatefilter, replacefilter, removefilter, enablefilter, "
         "disablefilter, movefilter; names from a pool of 3 plus one never-added name; definitions from a pool of 4; <= 30 steps) "
-        "and exhaustive enumeration of all histories up to length 3 (quick) / 4 (thorough) over the same pools through the same "
-        "interpreter; oracle: reference ordered-unique-list model compared after every step (names/order, FilterAlreadyExists, "
+        "and exhaustive enumeration of all histories up to length 3 (quick) / 4 (thorough), and of all continuations of length 2 / 3 of a set "
+        "that already holds the three names, over the same pools (replacefilter also with the content object of another filter of "
+        "the set, which the two then share) through the same interpreter; oracle: reference ordered-unique-list model compared after every step (names/order, FilterAlreadyExists, "
         "position and enabled flag kept by update/replace, move by one within bounds, unknown names change nothing, enabled flag "
         "== not is_filter_disabled == rendering wrapped in 'if false' with exactly one child, getfilter renders the last supplied "
         "definition). Non-trivial = history repeats an operation kind on the same name or mixes >= 3 kinds; distinct by history.")
@@ -52,6 +53,10 @@ def all_ops():
             ops.append({"op": "update", "name": n, "newname": new, "def": (NAMES.index(new) + 1) % len(DEFS)})
         for new in NAMES + [None]:
             ops.append({"op": "replace", "name": n, "newname": new, "def": 1, "description": "d" if new is None else None})
+    # replacefilter with the content object of another filter of the set (shared from then on)
+    for dst in NAMES:
+        for src in NAMES:
+            ops.append({"op": "replace", "name": dst, "from": src, "newname": None, "def": 2, "description": None})
     # the API also takes names as UTF-8 bytes
     ops.append({"op": "add", "name": b"n1", "def": 0})
     ops.append({"op": "remove", "name": b"n2"})
@@ -187,12 +192,12 @@ def nontrivial(ops):
 
 
 def record(col, ops, src):
-    fails = run_history(ops, last_only=(src == "exhaustive"))
+    fails = run_history(ops, last_only=(src in ("exhaustive", "populated")))
     nt = nontrivial(ops)
     sample = None
     if nt and col.evals % (4001 if src == "exhaustive" else 37) == 0:
         sample = {"ops": ops, "src": src}
-    col.case(key=None if src == "exhaustive" else repr(ops), nontrivial=nt,
+    col.case(key=None if src in ("exhaustive", "populated") else repr(ops), nontrivial=nt,
              classes=["src:" + src] + ["op:" + k for k in {o["op"] for o in ops}], sample=sample)
     for b, d in fails:
         col.fail(b, {"ops": d["ops"]}, d, size=len(d["ops"]) * 1000 + len(repr(d["ops"])))
@@ -211,6 +216,24 @@ def exhaustive_worker(arg):
             rec(prefix + [o], depth + 1)
 
     rec([ops[first]], 1)
+    return col
+
+
+def populated_worker(arg):
+    """All continuations of a set that already holds every name (distinct definitions)."""
+    first, maxlen = arg
+    col = core.Collector()
+    ops = all_ops()
+    prefix0 = [{"op": "add", "name": n, "def": i % len(DEFS)} for i, n in enumerate(NAMES)]
+
+    def rec(prefix, depth):
+        record(col, prefix, "populated")
+        if depth == maxlen:
+            return
+        for o in ops:
+            rec(prefix + [o], depth + 1)
+
+    rec(prefix0 + [ops[first]], 1)
     return col
 
 
@@ -241,6 +264,8 @@ def machine_worker(arg):
 
 
 def worker(arg):
+    if arg[0] == "pop":
+        return populated_worker(arg[1])
     return exhaustive_worker(arg[1]) if arg[0] == "ex" else machine_worker(arg[1])
 
 
@@ -261,9 +286,10 @@ def main(tier, seed, t0):
     nops = len(all_ops())
     maxlen = 3 if quick else 4
     shards = [("ex", (i, maxlen)) for i in range(nops)]
+    shards += [("pop", (i, 2 if quick else 3)) for i in range(nops)]
     shards += [("sm", (seed * 1000 + 900 + k, 60 if quick else 1200, 30)) for k in range(16)]
     col = core.run_shards(worker, shards)
-    need = ["src:exhaustive", "src:machine", "op:add", "op:update", "op:replace", "op:remove", "op:enable", "op:disable", "op:move"]
+    need = ["src:exhaustive", "src:populated", "src:machine", "op:add", "op:update", "op:replace", "op:remove", "op:enable", "op:disable", "op:move"]
     missing = [c for c in need if not col.classes.get(c)]
     if missing:
         raise core.HarnessError("generator classes empty: %s" % missing)
